@@ -61,6 +61,14 @@ def cases():
                     ['symlink', 'patch-behind-the-failing-one'], first_fail=0, props=('C05', 'C06'),
                     expect={'exit': '1', 'applied': [], 'tree': fs, 'rejects': ['g.rej']}))
 
+    # ---- links that stay inside, as seen by the two loaders (--mmap or not)
+    out.append(Case('target is a symbolic link to a file of the tree', fs, {'p0.patch': mod(b'link', b'r', 2, b'R2'), 'p1.patch': mod(b'g', b'g', 2, b'G2')}, ['p0.patch', 'p1.patch'],
+                    ['symlink', 'target-is-a-link-that-stays-inside'], first_fail=None, props=('C14', 'C09', 'C06')))
+    out.append(Case('patch file is a symbolic link', dict(F, **{'shared/p0.patch': (mod(b'f', b'f', 2, b'F2'), 0o644), 'patches/p0.patch': (b'../shared/p0.patch', 'link')}),
+                    {'p1.patch': mod(b'g', b'g', 2, b'G2')}, ['p0.patch', 'p1.patch'], ['symlink', 'patch-file-is-a-link'], first_fail=None, props=('C14', 'C06')))
+    out.append(Case('failing hunk on a symbolic link to a file of the tree', fs, {'p0.patch': mod(b'link', b'r', 2, b'X', bad=True)}, ['p0.patch'],
+                    ['symlink', 'target-is-a-link-that-stays-inside', 'failing-patch'], first_fail=0, props=('C14',)))
+
     # ---- a directory reached through a link that stays inside: emptying it must not stop the push
     fl = dict(F, **{'real/only': (b'x\ny\n', 0o644), 'd': (b'real', 'link')})
     out.append(Case('last file of a directory reached through a symbolic link deleted', fl, {'p0.patch': delete(b'd/only', [b'x', b'y']), 'p1.patch': mod(b'g', b'g', 2, b'G2')}, ['p0.patch', 'p1.patch'],
